@@ -77,6 +77,43 @@ class SubNode(Node):
 
 
 @dataclass(eq=False)
+class Bag:
+    """alternatively mapped container: its mapping exposes the relationship under another name than the constructor argument"""
+
+    _items: List[Leaf] = field(default_factory=list)
+
+    @property
+    def items(self) -> List[Leaf]:
+        return self._items
+
+
+@dataclass(eq=False)
+class BagMapped(AlternativeMapping[Bag]):
+    items: List[Leaf] = field(default_factory=list)
+
+    @classmethod
+    def create_instance(cls, obj: Bag):
+        return cls(obj.items)
+
+    def create_from_dao(self) -> Bag:
+        return Bag(self.items)
+
+
+@dataclass(eq=False)
+class LabeledBag(Bag):
+    """a normally mapped subclass of an alternatively mapped class"""
+
+    label: int = 11
+
+
+@dataclass(eq=False)
+class Holder:
+    bag: Optional[Bag] = None
+    favourite: Optional[Leaf] = None
+    others: List[Leaf] = field(default_factory=list)
+
+
+@dataclass(eq=False)
 class Rich:
     """scalars of every supported kind"""
 
@@ -94,5 +131,5 @@ class Rich:
     owner: Optional[Node] = None
 
 
-CLASSES = [Leaf, SubLeaf, SubSubLeaf, DeepLeaf, Vec, Node, SubNode, Rich]
-ALTERNATIVE_MAPPINGS = [VecMapped]
+CLASSES = [Leaf, SubLeaf, SubSubLeaf, DeepLeaf, Vec, Node, SubNode, Rich, Bag, LabeledBag, Holder]
+ALTERNATIVE_MAPPINGS = [VecMapped, BagMapped]
